@@ -11,8 +11,9 @@ EXTENDS BlsCache, TLC, Json
 CONSTANTS NT,        \* number of verifying threads
           MaxPairs,  \* pairs per call
           Caps,      \* set of capacities
-          Menu,      \* "small" | "full": size of the call / environment menus
-          Reduce     \* TRUE: run the lock-free actions (Compute, Final) eagerly
+          Menu,      \* "small" | "small3" | "full": size of the call / environment menus
+          Reduce,    \* TRUE: run the lock-free actions (Compute, Final) eagerly
+          EmitMod    \* emit every terminal state (1) or a fixed arithmetic selection of 1 in EmitMod
 
 VARIABLES sched,     \* history: the lock-granularity schedule (thread id, or NT + env index)
           obs,       \* history: cache contents after each scheduled critical section
@@ -23,7 +24,7 @@ PA == <<1, 1>>
 PB == <<2, 1>>
 PC == <<1, 0>>
 PD == <<Inf, 1>>
-PU == IF Menu = "small" THEN {PA, PB, PD} ELSE {PA, PB, PC, PD}
+PU == IF Menu = "full" THEN {PA, PB, PC, PD} ELSE {PA, PB, PD}
 PriorU == {PA, PB, PC}
 
 Lists(S, n) == UNION {[1..k -> S] : k \in 0..n}
@@ -53,11 +54,13 @@ SigMenu(pairs, wf) ==
 MkCall(pairs, wf) == [pairs |-> pairs, wf |-> wf, sigs |-> SigMenu(pairs, wf)]
 \* an off-subgroup signature is rejected before the first pair: no cache traffic at all, so
 \* one such call per length is enough
-CallMenu == {MkCall(l, TRUE) : l \in PairLists} \cup {MkCall(l, FALSE) : l \in {<<>>, <<PA>>, <<PD, PB>>}}
+CallMenu == {MkCall(l, TRUE) : l \in PairLists}
+            \cup {MkCall(l, FALSE) : l \in IF Menu = "small3" THEN {<<PA>>} ELSE {<<>>, <<PA>>, <<PD, PB>>}}
 
 Ev(ps) == [op |-> "evict", pairs |-> ps]
 Up(p) == [op |-> "update", pairs |-> <<p>>]
 EnvMenu == IF Menu = "small" THEN {<<>>, <<Ev(<<PA, PB>>)>>, <<Up(PA)>>, <<Up(PC)>>}
+           ELSE IF Menu = "small3" THEN {<<>>, <<Ev(<<PA, PB>>)>>, <<Up(PC)>>}
            ELSE {<<>>, <<Ev(<<PA, PB>>)>>, <<Ev(<<PC>>)>>, <<Ev(<<PD, PA>>)>>, <<Up(PA)>>, <<Up(PB)>>, <<Up(PC)>>}
 
 hvars == <<sched, obs, prior0>>
@@ -102,5 +105,8 @@ HistOK == Len(sched) = Len(obs) /\ (obs # <<>> => obs[Len(obs)] = cache)
 
 Case == [k |-> "conc", cap |-> cap, prior |-> prior0, calls |-> call, env |-> env,
          sched |-> sched, obs |-> obs, verdicts |-> verdict]
-Emit == AllDone => PrintT(<<"CASE", ToJson(Case)>>)
+SchedSum == LET RECURSIVE G(_)
+                G(i) == IF i = 0 THEN 0 ELSE i * sched[i] + G(i - 1)
+            IN G(Len(sched)) + Len(prior0) + cap
+Emit == (AllDone /\ SchedSum % EmitMod = 0) => PrintT(<<"CASE", ToJson(Case)>>)
 =============================================================================
